@@ -5,7 +5,7 @@
 (*   MC_Pipeline        : programs of length <= 6 over the full alphabet     *)
 (*   MC_Pipeline_all    : EVERY program (no length bound): the abstract      *)
 (*                        state space is finite, n is hidden by a VIEW       *)
-(*   MC_Pipeline_all_quick : the same on two input classes                   *)
+(*   MC_Pipeline_all_quick : the same over a reduced option alphabet          *)
 (*   MC_Pipeline_devMethod / _devLayout : deviation switches - must FAIL     *)
 EXTENDS Pipeline
 MCDirs == {"A", "B"}
@@ -16,6 +16,7 @@ FullMaxes == {"all", "two", "one"}
 QuickMaxes == {"all", "one"}
 FullMethods == {"auto", "average", "majority", "stride"}
 QuickMethods == {"auto", "majority"}
+MidMethods == {"auto", "majority", "stride"}
 FullShardings == {"nosh", "s110"}
 FullCodes == {"RPI", "LIP"}
 QuickCodes == {"RPI"}
